@@ -15,11 +15,12 @@ HERE = os.path.dirname(os.path.abspath(__file__))
 
 def _reexec_if_needed():
     want = {"PYTHONHASHSEED": "0", "PYTHONDONTWRITEBYTECODE": "1", "PYTHONIOENCODING": "utf-8"}
-    if all(os.environ.get(k) == v for k, v in want.items()):
+    want_O = "--python-O" in sys.argv
+    if all(os.environ.get(k) == v for k, v in want.items()) and (not want_O or sys.flags.optimize):
         return
     env = dict(os.environ)
     env.update(want)
-    os.execve(sys.executable, [sys.executable] + sys.argv, env)
+    os.execve(sys.executable, [sys.executable] + (["-O"] if want_O else []) + sys.argv, env)
 
 
 def main():
@@ -30,6 +31,7 @@ def main():
     ap.add_argument("--replay")
     ap.add_argument("--only")
     ap.add_argument("--seed", type=int, default=None)
+    ap.add_argument("--python-O", action="store_true", help="run the whole check under `python -O` (asserts compiled out)")
     a = ap.parse_args()
 
     repo = os.path.abspath(os.environ.get("VERIF_REPO", "/repo"))
